@@ -19,5 +19,8 @@ void vstl_access(const void* container);
 #define vassert(c) vassert_(!!(c), __LINE__)
 #define vassume(c) vassume_(!!(c))
 #define vreach() vreach_(__LINE__)
+// Typed storage whose constructor is NOT run: declared extern here, defined zero-initialised by ir2c (generated C)
+// resp. by vraw_defs.c (native builds).  Use: VRAW(Session, sess, [4]);  ->  vraw_sess[i]
+#define VRAW(T, name, dim) extern "C++" { extern T vraw_##name dim; }
 static inline bool nondet_bool() { return (nondet_uchar() & 1) != 0; }
 #endif
